@@ -252,8 +252,23 @@ def replay_case(case, acc):
     raise core.HarnessError("C17 cases name family members; re-run ./check C17 quick")
 
 
-def _is_graph_state_like(case):
-    return True
+def _neg(strings):
+    return any(g.startswith("-") for g in strings)
 
 
-PREDICATES = {}
+def _stabilizer_held_operand_has_negative_sign(case):
+    """an operand that is held as a stabilizer while the other is a density matrix has a generator with sign -"""
+    if "target_rep" not in case:
+        return False
+    if case["target_rep"] == case["state_rep"]:
+        return False
+    held = case["target"] if case["target_rep"] == "s" else case["state"]
+    return _neg(held)
+
+
+def _some_operand_has_negative_sign(case):
+    return "target" in case and "state" in case and (_neg(case["target"]) or _neg(case["state"]))
+
+
+PREDICATES = {"stabilizer_held_operand_has_negative_sign": _stabilizer_held_operand_has_negative_sign,
+              "some_operand_has_negative_sign": _some_operand_has_negative_sign}
